@@ -3,6 +3,7 @@ package core
 import (
 	"bytes"
 	"fmt"
+	"os"
 	"runtime"
 	"sort"
 	"strconv"
@@ -31,7 +32,9 @@ type Sched struct {
 	rootGid  uint64
 	StepHook func(step int) // called by the scheduler goroutine before every step, all tasks parked or blocked
 	held     map[uint64]int // per goroutine: locks of the library currently held (instrumented build)
-	GCAtStep int            // scheduler step before which a garbage collection is forced (-1: none)
+	free     bool           // VERIF_FREERUN: no cooperative scheduling, tasks are plain goroutines (used to tell a hang of the library from one the simulator induced)
+	freeWG   sync.WaitGroup
+	GCAtStep int // scheduler step before which a garbage collection is forced (-1: none)
 }
 
 type Task struct {
@@ -49,7 +52,7 @@ type Task struct {
 }
 
 func NewSched(r *Run) *Sched {
-	return &Sched{r: r, byGid: map[uint64]*Task{}, abort: make(chan struct{}), SwitchP: [2]int{1, 1}, rootGid: curGid(), GCAtStep: -1, held: map[uint64]int{}}
+	return &Sched{r: r, byGid: map[uint64]*Task{}, abort: make(chan struct{}), SwitchP: [2]int{1, 1}, rootGid: curGid(), GCAtStep: -1, held: map[uint64]int{}, free: os.Getenv("VERIF_FREERUN") != ""}
 }
 
 func curGid() uint64 {
@@ -66,6 +69,14 @@ func curGid() uint64 {
 
 // Go registers a task. It starts parked; the scheduler releases it.
 func (s *Sched) Go(name string, fn func()) *Task {
+	if s.free {
+		s.freeWG.Add(1)
+		go func() {
+			defer s.freeWG.Done()
+			fn()
+		}()
+		return &Task{Name: name}
+	}
 	t := &Task{Name: name, resume: make(chan struct{}), fn: fn, parked: true, site: "start"}
 	s.mu.Lock()
 	s.tasks = append(s.tasks, t)
@@ -95,6 +106,10 @@ func (s *Sched) Go(name string, fn func()) *Task {
 // Yield is installed as verifhook.YieldFn and is also called by harness code.
 // The calling goroutine parks until the scheduler releases it again.
 func (s *Sched) Yield(site string, key ...int) {
+	if s.free {
+		runtime.Gosched()
+		return
+	}
 	gid := curGid()
 	if gid == s.rootGid {
 		return // the scheduler's own goroutine (oracle code calling the library) never parks
@@ -179,6 +194,10 @@ func lessKey(a, b *Task) bool {
 // error text when tasks remain that can never run again (lost wake-up).
 // tick, if non-nil, is called after every step (invariant checks).
 func (s *Sched) Run(maxSteps int, tick func()) string {
+	if s.free {
+		s.freeWG.Wait()
+		return ""
+	}
 	for step := 0; ; step++ {
 		if l := CurLib(); l != "" {
 			// the task that runs now is inside a library call: should the bubble never become quiescent, that call is
